@@ -954,6 +954,9 @@ WIRING_SITES = [
      dict(_NR, **{'kw:norm_x': 'norm_x', 'kw:norm_y': 'norm_y'})),
     ('SurfaceFactory._configure_material', 'IdealMaterial.__init__',
      {'1.0': 'n', '0.0': 'k'}),
+    ('SurfaceFactory._configure_material', 'Material.__init__',
+     [{'material[0]': 'name', 'material[1]': 'reference'},
+      {'material': 'name'}]),
     ('SurfaceFactory.configure_coating', 'FresnelCoating.__init__',
      {'material_pre': 'material_pre', 'material_post': 'material_post'}),
     ('Optic.add_wavelength', 'WavelengthGroup.add_wavelength',
